@@ -25,7 +25,8 @@ i.e. the clause `single-final-eof` of `Spec.C02` holds.
 Proved likewise (`model_first_at_bom`, from the second discipline `cwp` of `Proofs/Model/Cover*.lean`: the open-code
 dispatcher, entered on the initial state, always leaves a token that starts where it was entered; afterwards the
 oldest token never moves — `run_KOld`, for every program): the first token starts at the end of the BOM.
-`C02_model` collects every clause of `Spec.C02` except the one about payload slices (debug profile).
+`C02_model` collects every clause of `Spec.C02` except the one about payload slices — both profiles: that token starts
+never decrease is a theorem of the control logic (`model_bytes_sorted`, `Proofs/Model/Sorted*.lean`), not only a debug assertion.
 
 Not proved: totality (C01: the model returns, i.e. no panic / fuel exhaustion / budget) — a hypothesis of the
 model theorems; for the implementation everything is decided per run by `Spec.C02` on implementation dumps plus
@@ -137,7 +138,7 @@ theorem byte_of_bomChars {s : List Char} {b c : Nat} (h : PosPair s b c) (hc : c
 payload slices): the token list is non-empty, its first token starts at the end of the BOM, start offsets
 never decrease and are character boundaries, there is exactly one `EOF`, it is last and sits at the end of the
 text — hence the raw texts of the tokens tile the source. -/
-theorem C02_model (cfg : Cfg) (hd : cfg.debug = true) (s : List Char) (hlen : utf8Len s < 4294967296)
+theorem C02_model (cfg : Cfg) (s : List Char) (hlen : utf8Len s < 4294967296)
     (hend : (lexProgram cfg s).ending = some .eof) :
     (lexProgram cfg s).buf.toks ≠ [] ∧
     ((lexProgram cfg s).buf.toks.map (·.byte)).head? = some (bomLen s) ∧
@@ -148,7 +149,7 @@ theorem C02_model (cfg : Cfg) (hd : cfg.debug = true) (s : List Char) (hlen : ut
   have hl : s.length < 4294967296 := Nat.lt_of_le_of_lt (length_le_utf8Len_c02 s) hlen
   obtain ⟨t0, ht0, hst0⟩ := model_first_at_bom cfg s hl hend
   obtain ⟨_, htoks, _⟩ := model_lines_exact cfg s hend
-  have hmono := model_tokMono_debug cfg hd s hend
+  have hmono := model_tokMono cfg s hend
   refine ⟨?_, ?_, ?_, ?_, C02_model_single_eof cfg s hend⟩
   · intro e; rw [e] at ht0; simp at ht0
   · rw [List.head?_map, ht0]
